@@ -193,6 +193,68 @@ def compile_shared_factor(n, m, version, where):
         return ("err", type(e).__name__, str(e).splitlines()[0][:200] if str(e) else "")
 
 
+def nested_stream(drv, r, versions, count, stats, mismatches):
+    """a factor that is itself a WideRatio (its own floor, its own 64-bit quotient limit): the outer ratio is defined over the VALUES of
+    its factors, so the inner quotient is computed first and an inner failure fails the program"""
+    pt = _pt()
+    fixed = [(("n", 0), [7, 1], [2], [2], [1]), (("n", 0), [2 ** 63, 4], [1], [1], [4]), (("d", 0), [9], [2], [100, 3], [1]),
+             (("n", 1), [5, 5], [3], [3, 1], [2]), (("d", 1), [10], [4], [7], [1, 1])]
+    for k in range(count):
+        if k < len(fixed):
+            where, ins, ids, ons, ods = fixed[k]
+            ons, ods = list(ons), list(ods)
+        else:
+            where = (r.choice("nd"), 0)
+            ins = [r.choice([gen_u(r), r.randrange(1, 50)]) for _ in range(r.choice([1, 2, 2, 3]))]
+            ids = [r.choice([gen_u(r, True), r.randrange(1, 9)]) for _ in range(r.choice([1, 1, 2]))]
+            ons = [r.choice([gen_u(r), r.randrange(0, 9)]) for _ in range(r.choice([1, 2, 3]))]
+            ods = [r.choice([gen_u(r, True), r.randrange(1, 9)]) for _ in range(r.choice([1, 2]))]
+            where = (where[0], r.randrange(len(ons) if where[0] == "n" else len(ods)))
+        if len(ins) == 1 and len(ids) == 1:
+            ids = ids + [1]
+        vals = [clip(x) for x in ins + ids + ons + ods]
+        ins, ids = vals[:len(ins)], vals[len(ins):len(ins) + len(ids)]
+        ons, ods = vals[len(ins) + len(ids):len(ins) + len(ids) + len(ons)], vals[len(ins) + len(ids) + len(ons):]
+        inner = expected(ins, ids)
+        if inner[0] == "ok":
+            o_n, o_d = list(ons), list(ods)
+            (o_n if where[0] == "n" else o_d)[where[1]] = inner[1]
+            exp = expected(o_n, o_d)
+        else:
+            # evaluation order: factors are evaluated left to right, numerators first; an earlier failure of the outer running
+            # product may come first -- either way the program fails
+            exp = ("fail", "inner_" + inner[1])
+        if len(ons) == 1 and len(ods) == 1:
+            continue
+        version = r.choice(versions)
+        leaves = [pt.Btoi(pt.Txn.application_args[i]) for i in range(len(vals))]
+        a, b = len(ins), len(ins) + len(ids)
+        c = b + len(ons)
+        try:
+            innerx = pt.WideRatio(leaves[:a], leaves[a:b])
+            o_n, o_d = leaves[b:c], leaves[c:]
+            (o_n if where[0] == "n" else o_d)[where[1]] = innerx
+            teal = pt.compileTeal(pt.Return(pt.WideRatio(o_n, o_d)), pt.Mode.Application, version=version, assembleConstants=False)
+        except Exception as e:  # noqa: BLE001
+            mismatches.append({"kind": "nested", "n": len(ons), "m": len(ods), "version": version, "ns": ons, "ds": ods, "no_input": True,
+                               "what": f"WideRatio with a WideRatio factor at {where} refused: {type(e).__name__}: {str(e)[:150]}"})
+            continue
+        a1 = drv.ask(f"teal tnest {hexs(teal.encode())}")
+        if not a1.startswith("ok"):
+            raise ToolFailure("nested WideRatio TEAL does not parse: " + a1)
+        if drv.ask(f"ctx cn {ctx_sexp(version, vals)}") != "ok":
+            raise ToolFailure("ctx")
+        ex = drv.ask(f"exec tnest cn {FUEL}")
+        got = parse_outcome(ex)
+        stats["nested_programs"] += 1
+        stats["nested:" + ("ok" if exp[0] == "ok" else "fail")] += 1
+        if not same(exp, got):
+            mismatches.append({"kind": "nested", "n": len(ons), "m": len(ods), "version": version, "ns": ons, "ds": ods,
+                               "inner": [ins, ids], "where": list(where), "expected": list(exp), "real_teal_in_lean_avm": ex, "teal": teal,
+                               "what": f"WideRatio with the factor WideRatio({ins}, {ids}) at {where} in ({ons}, {ods}) at version {version}: "
+                                       f"property says {exp}, real TEAL gives `{ex}`"})
+
+
 def compile_real(n, m, version, leaf):
     """('ok', teal) | ('err', ExceptionClassName, message)"""
     pt = _pt()
@@ -605,6 +667,7 @@ def run(tier: str) -> int:
                         shape_count[f"{n}x{m}"] += 1
                         if len(samples) < 6 and r.random() < 0.01:
                             samples.append({"ns": ns, "ds": ds, "expected": list(expected(ns, ds))})
+        nested_stream(drv, rng("c16-nested"), exec_versions, 40 if tier == "quick" else 600, stats, mismatches)
     finally:
         drv.close()
 
